@@ -287,7 +287,10 @@ func (server *Server) receive(conn net.Conn, tlsState *tls.ConnectionState) erro
 		}
 	}
 
-	server.AddConn(handlerConn)
+	if !server.addConnIfRunning(handlerConn) {
+		// The server was stopped after this connection had been accepted.
+		return nil
+	}
 	verifPoint("conn.registered")
 	defer func() {
 		server.RemoveConn(handlerConn)
